@@ -102,22 +102,47 @@ def verdict(declared: tuple, actual: tuple, absorbing: bool = False) -> str:
 # ---- drivers of the real gate -------------------------------------------------------------------
 
 
-def call_input(declared: Any, value: Any, keyword: bool = False) -> tuple[str, str, bool]:
-    """returns (verdict, message, body ran)"""
+def call_input(declared: Any, value: Any, keyword: bool = False, shape: int = 0) -> tuple[str, str, bool]:
+    """returns (verdict, message, body ran).  The probes of all shapes share one qualified name
+    but differ in their parameter lists, as redefined helpers or lambdas do."""
     from symplyphysics import validate_input
     from symplyphysics.core.errors import UnitsError
     ran = []
+    if shape == 0:
 
-    @validate_input(param_=declared)
-    def probe(param_: Any) -> Any:
-        ran.append(1)
-        return param_
+        @validate_input(param_=declared)
+        def probe(param_: Any) -> Any:
+            ran.append(1)
+            return param_
 
+        args, kwargs = ((), {"param_": value}) if keyword else ((value, ), {})
+    elif shape == 1:
+
+        @validate_input(param_=declared)
+        def probe(other_: Any, param_: Any) -> Any:  # type: ignore[misc]
+            ran.append(1)
+            return param_
+
+        args, kwargs = ((), {"param_": value, "other_": 7}) if keyword else ((7, value), {})
+    elif shape == 2:
+
+        @validate_input(param_=declared)
+        def probe(param_: Any, extra_: Any = None) -> Any:  # type: ignore[misc]
+            ran.append(1)
+            return param_
+
+        args, kwargs = ((), {"extra_": 7, "param_": value}) if keyword else ((value, 7), {})
+    else:
+
+        @validate_input(param_=declared, second_=declared)
+        def probe(first_: Any, second_: Any, param_: Any) -> Any:  # type: ignore[misc]
+            ran.append(1)
+            return param_
+
+        args, kwargs = (((7, ), {"param_": value, "second_": value}) if keyword else ((7, value,
+            value), {}))
     try:
-        if keyword:
-            probe(param_=value)
-        else:
-            probe(value)
+        probe(*args, **kwargs)
         return OK, "", bool(ran)
     except UnitsError as e:
         return UNITS, str(e), bool(ran)
@@ -189,6 +214,11 @@ def pair_cases(d: tuple, a: tuple, deep: bool) -> Iterator[tuple[str, str]]:
     if not deep:
         return
     yield f"{tag}|kw", expect(want, call_input(D, q, keyword=True))
+    for shape in (1, 2, 3, 0):
+        name = "second_" if shape == 3 else "param_"
+        yield f"{tag}|shape{shape}", expect(want, call_input(D, q, shape=shape), must_name=name)
+        yield f"{tag}|shape{shape}kw", expect(want, call_input(D, q, keyword=True, shape=shape),
+            must_name=name)
     yield f"{tag}|expr", expect(want, call_input(D, 5 * A if A != 1 else sp.Integer(5)))
     for name, m in MAGNITUDES:
         yield f"{tag}|mag{name}", expect(want, call_input(D, Quantity(m * A)))
